@@ -42,8 +42,8 @@ static size_t ghost_size() {
 }
 
 static int deliver(VF_T v) {  // caller holds VfAtomic; returns the tag (0 = not a tag)
-  int tag = 0;
-  for (int t = 1; t <= VF_OPS; ++t) if (v == payload((VF_T)t)) tag = t;
+  int tag = (int)(v & 0xff);  // payload(tag) carries the tag in its low byte
+  if (tag < 1 || tag > VF_OPS || v != payload((VF_T)tag)) tag = 0;
   vf_check(tag != 0 && g_offered[tag], "pop/steal returned a value that was never pushed");
   if (tag != 0) {
     g_got[tag]++;
@@ -103,34 +103,61 @@ static void owner_pop(bool quiescent, size_t expect) {
   }
 }
 
+static int g_next = 1;  // next fresh tag (owner only)
+
+static void owner_push() {
+  const int tag = g_next++;
+  size_t before;
+  { VfAtomic a; g_offered[tag] = 1; before = ghost_size(); }
+  bool ok = D.try_push(payload((VF_T)tag));
+  VfAtomic a;
+  // stealers only remove elements, so a push that finds the deque full saw >= capacity at its start
+  vf_check(ok || before >= Deque::capacity(), "try_push failed although the deque was not full");
+  if (ok) { g_pushed[tag] = 1; g_loc[g_bot++] = payload((VF_T)tag); }
+  vf_check(ghost_size() <= Deque::capacity(), "the deque holds more than capacity() elements");
+}
+
+// one owner operation; kind 0 = push a fresh tag, 1 = pop, 2 = owner steal, 9 = symbolic choice
+#define OWNER_OP(kind)                                                   \
+  do {                                                                   \
+    uint32_t op_ = (kind) == 9 ? vf_range_u32(0, VF_OWNER_STEAL ? 2 : 1) : (uint32_t)(kind); \
+    if (op_ == 0) owner_push();                                          \
+    else if (op_ == 1 || !VF_OWNER_STEAL) owner_pop(false, 0);           \
+    else steal_once();                                                   \
+  } while (0)
+
+// Owner history.  VF_HIST_LOOP=1: VF_OPS operations, each a symbolic choice (loop form: measured to be
+// the cheaper encoding for symbolic kinds).  Otherwise a straight-line template VF_H0..VF_H3 with
+// kinds in {0,1,2,9} (fixed kinds make the segment bodies much smaller).
+#ifndef VF_HIST_LOOP
+#define VF_HIST_LOOP 0
+#endif
+#ifndef VF_H0
+#define VF_H0 9
+#define VF_H1 9
+#define VF_H2 9
+#define VF_H3 9
+#endif
+
 extern "C" void vf_main() {
   vf_spawn(stealer1, nullptr);
 #if VF_STEALERS >= 2
   vf_spawn(stealer2, nullptr);
 #endif
-  int next = 1;
-  for (int step = 0; step < VF_OPS; ++step) {
-    uint32_t op = vf_range_u32(0, VF_OWNER_STEAL ? 2 : 1);
-    if (op == 0) {
-      size_t before;
-      { VfAtomic a; g_offered[next] = 1; before = ghost_size(); }
-      bool ok = D.try_push(payload((VF_T)next));
-      {
-        VfAtomic a;
-        // stealers only remove elements, so a push that finds the deque full saw >= capacity at its start
-        vf_check(ok || before >= Deque::capacity(), "try_push failed although the deque was not full");
-        if (ok) { g_pushed[next] = 1; g_loc[g_bot++] = payload((VF_T)next); }
-        vf_check(ghost_size() <= Deque::capacity(), "the deque holds more than capacity() elements");
-      }
-      ++next;
-    } else if (!VF_OWNER_STEAL || op == 1) {
-      owner_pop(false, 0);
-    } else {
-#if VF_OWNER_STEAL
-      steal_once();
+#if VF_HIST_LOOP
+  for (int step = 0; step < VF_OPS; ++step) OWNER_OP(9);
+#else
+  OWNER_OP(VF_H0);
+#if VF_OPS >= 2
+  OWNER_OP(VF_H1);
 #endif
-    }
-  }
+#if VF_OPS >= 3
+  OWNER_OP(VF_H2);
+#endif
+#if VF_OPS >= 4
+  OWNER_OP(VF_H3);
+#endif
+#endif
   vf_join_all();
   if (vf_any_stuck()) return;
   // quiescent: everything pushed and not yet delivered is still inside; drain as owner
